@@ -32,7 +32,7 @@ RULE = (
     "0.1, 1.5, 1e-7, 5e-324, max double, NaN, +-inf; true, false, null) + lists/dicts of <= 2 elements "
     "(second element over 12 representative atoms) + one more nesting level around every such container + rich types (Path, date, time, datetime, "
     "set, complex, dataclass, custom class via caller json_default) nested in containers; x {binary, "
-    "text} recording files x {default, caller json_default}; plus real BytesIO/StringIO/disk files; "
+    "text} recording files x {default, caller json_default}; plus real BytesIO/StringIO/disk/codecs files and pairs of files of one class that differ in mode (NamedTemporaryFile wb/w, an application wrapper class; both orders); "
     "non-trivial = value other than the integer 0"
 )
 ASSUMPTIONS = [
